@@ -223,7 +223,7 @@ def classify(parsed):
 class Harness:
     def __init__(self, name, unwind, feature="on", timeout=900, mem_gb=12, loops=None,
                  desc="", bounds=None, assumptions=None, expect="pass", finding=None,
-                 tier="quick", solver=None, extra_args=None, stub_exact=True, fs=256):
+                 tier="quick", solver=None, extra_args=None, stub_exact=True, fs=256, bytewise=0):
         self.name = name
         self.unwind = unwind
         self.feature = feature
@@ -240,6 +240,7 @@ class Harness:
         self.extra_args = extra_args or []
         self.stub_exact = stub_exact
         self.fs = fs                  # CBMC --max-field-sensitivity-array-size
+        self.bytewise = bytewise      # >0: link vlib/bytewise_mem.c, memcpy/memmove loop bound
 
     @property
     def key(self):
@@ -287,6 +288,13 @@ KANI_LIB_C = os.path.expanduser("~/.kani/kani-0.68.0/library/kani/kani_lib.c")
 CBMC_FLAGS = ["--no-malloc-may-fail", "--no-undefined-shift-check", "--no-signed-overflow-check",
               "--nan-check", "--no-self-loops-to-assumptions", "--no-pointer-primitive-check",
               "--object-bits", "16", "--slice-formula"]
+
+
+def _with_loops(h, extra):
+    import copy
+    h2 = copy.copy(h)
+    h2.loops = list(extra) + list(h.loops)
+    return h2
 
 
 def kani_metadata(feature, harness):
@@ -347,8 +355,12 @@ def run_harness(h, logdir, seed=0):
     _, mangled, symtab, stubs = md
     r["stubs"] = ["%s -> %s" % (s.get("original"), s.get("replacement")) if isinstance(s, dict) else str(s) for s in stubs]
     work = symtab.replace(".symtab.out", "") + ".cbmc.out"
+    libs = [KANI_LIB_C]
+    if h.bytewise:
+        libs.append(os.path.join(VERIF, "vlib", "bytewise_mem.c"))
+        h = _with_loops(h, [(r"^memcpy\.|^memmove\.", h.bytewise + 1)])
     steps = [
-        ["goto-cc", symtab, KANI_LIB_C, "-o", work],
+        ["goto-cc", symtab] + libs + ["-o", work],
         ["goto-cc", work, "--function", mangled, "-o", work],
         ["goto-instrument", "--add-library", "--no-malloc-may-fail", work, work],
         ["goto-instrument", "--generate-function-body-options", "assert-false-assume-false",
